@@ -35,7 +35,13 @@ def make_replay(prop, tier, failed, logdir):
         byh.setdefault(f["harness"], []).append(f)
     items = []
     found = False
-    for h, fs in sorted(byh.items()):
+    # counter-example replay is attempted for at most MAX_PLAYBACK failing harnesses that have a
+    # scenario decoder, sharing one scratch build
+    MAX_PLAYBACK = int(os.environ.get("VERIF_MAX_PLAYBACK", "2"))
+    tried = 0
+    pb_scratch = None
+    import scenario
+    for h, fs in sorted(byh.items(), key=lambda kv: (not scenario.has_decoder(kv[0]), kv[0])):
         logp = os.path.join(logdir, h.replace("@", "_") + ".log")
         item = {
             "harness": h,
@@ -44,8 +50,14 @@ def make_replay(prop, tier, failed, logdir):
             "log": logp,
         }
         try:
-            import scenario
-            sc = scenario.from_failure(h, fs, logdir)
+            sc = None
+            if tried < MAX_PLAYBACK and scenario.has_decoder(h) and fs[0].get("kind") != "verus":
+                tried += 1
+                if pb_scratch is None:
+                    pb_scratch = vlib.Scratch("pb")
+                    pb_scratch.populate()
+                    pb_scratch.inject()
+                sc = scenario.from_failure(h, fs, logdir, pb_scratch)
             if sc is not None:
                 item["scenario"] = sc["scenario"]
                 item["replay_result"] = sc["result"]
@@ -54,6 +66,8 @@ def make_replay(prop, tier, failed, logdir):
         except Exception as e:  # replay is best effort; the violation stands on the failed obligation
             item["scenario_error"] = repr(e)
         items.append(item)
+    if pb_scratch is not None:
+        pb_scratch.cleanup()
     doc = {
         "property": prop,
         "tier": tier,
